@@ -47,6 +47,15 @@ CLAIMED = {
          "binary64 code by decision/coordinate correspondence with near-tie detection; curves_to_quadratic (same n), qu2cu and "
          "cu2qu.ufo glyph conversion are dense-sampling sweeps on the implementation (testing).",
          "Rocq proof over Q of the tolerance check's soundness + model/implementation correspondence + dense-sampling sweeps"),
+ "C09": ("Theorems over exact rationals: interpolating the stored deltas at a master's location returns exactly that master for ANY "
+         "lower-triangular weight matrix (deltas_reproduce_masters, induction over the master list), tents are 1 at the peak and within [0,1], "
+         "the negative-side decomposition used by rebaseTent is exact (neg_chop), normalizeValue sends min/default/max to -1/0/+1 and clamps into "
+         "[-1,1], renormalizeValue sends the new limits to -1/0/+1. normalizeValue, supportScalar, piecewiseLinearMap, renormalizeValue and the "
+         "whole of _solve/rebaseTent are modelled and tied to the code by exact/1e-9 correspondence; on the implementation the property itself "
+         "is evaluated: rebased tents sum to the original tent at 33 points of the new range for every continuous tent, random master sets are "
+         "reproduced exactly and via master weights, IUP-optimised deltas reconstruct within tolerance, VarStore optimize/subset/prune preserve "
+         "values (testing). Not proved: the full solve_exact theorem and the support construction of VariationModel.",
+         "Rocq proof over Q of the delta core and tent algebra + correspondence of the solver/normalisation models + exact-arithmetic sweeps"),
 }
 
 def main():
